@@ -1,6 +1,7 @@
 package main
 
 import (
+	"6502profiler/commands"
 	"6502profiler/cpu"
 	"6502profiler/emuconfig"
 	"6502profiler/memory"
@@ -306,12 +307,25 @@ func apiCase(r *rng.R, dir string) string {
 		p2 = append(p2, bankedOps(r, spec)...)
 	}
 	p2 = append(p2, apiOp{name: "la"}, apiOp{name: "pl"})
+	// chunk level: what the script does while it is being loaded (before arrange is ever called) acts on the same
+	// machine, with the program loaded and the program counter at the load address
+	p0 := []apiOp{}
+	if r.Chance(50) {
+		p0 = append(p0, apiOp{name: "gp"}, apiOp{name: "la"}, apiOp{name: "pl"})
+		p0 = append(p0, genApiOps(r, r.Intn(4), flat)...)
+		if r.Bool() {
+			p1 = append([]apiOp{{name: "gp"}, {name: "ga"}, {name: "gf"}}, p1...)
+		}
+	}
 
 	var sb strings.Builder
 	sb.WriteString("out = {}\nfunction rec(x) out[#out+1] = tostring(x) end\n")
 	fmt.Fprintf(&sb, "function num_iterations() return %d end\n", iters)
 	if trap {
 		sb.WriteString("function trap(c) rec(get_cycles()); rec(c) end\n")
+	}
+	for _, o := range p0 {
+		sb.WriteString(o.lua() + "\n")
 	}
 	sb.WriteString("function arrange()\n")
 	for _, o := range p1 {
@@ -333,6 +347,9 @@ func apiCase(r *rng.R, dir string) string {
 	}
 	{
 		w1, w2 := []string{}, []string{}
+		for _, x := range p0 {
+			w1 = append(w1, "@"+x.wire())
+		}
 		for _, x := range p1 {
 			w1 = append(w1, x.wire())
 		}
@@ -387,6 +404,9 @@ func apiCase(r *rng.R, dir string) string {
 		o = "-"
 	}
 	w1, w2 := []string{}, []string{}
+	for _, x := range p0 {
+		w1 = append(w1, "@"+x.wire())
+	}
 	for _, x := range p1 {
 		w1 = append(w1, x.wire())
 	}
@@ -401,11 +421,65 @@ func apiCase(r *rng.R, dir string) string {
 	return fmt.Sprintf("luaapi %d %s %x %d %d | %s | %s => %s | %s", model, spec, loadAt, iters, tr, strings.Join(w1, " "), strings.Join(w2, " "), res, o)
 }
 
+// trapGlobalsCase: the globals a trap script of run/profile sees (commands.LoadAndRunBinary): load_address and prog_len
+// of the binary that was loaded, the program counter and the live cycle counter at the moment of the trap
+func trapGlobalsCase(r *rng.R, dir string) string {
+	loadAt := []int{0x0800, 0x0801, 0x0200, 0x1000, 0x3000, 0x00F0}[r.Intn(6)]
+	pad := r.Intn(40)
+	if r.Chance(10) {
+		pad = 300 + r.Intn(300) // longer than the load address is large in the low pages: the two cannot be confused
+	}
+	code := []uint8{}
+	for i := 0; i < pad; i++ {
+		code = append(code, 0xEA) // NOP
+	}
+	code = append(code, 0xA9, 0x07, 0x8D, 0x00, 0x7F, 0x00) // LDA #7; STA $7F00; BRK
+	bin := writeFile(dir, "tg.bin", prg(uint16(loadAt), code...))
+	outFile := filepath.Join(dir, "tg_out.txt")
+	os.Remove(outFile)
+	script := writeFile(dir, "tg.lua", []byte("function trap(c)\n  local f = io.open('"+outFile+"', 'w')\n  f:write(load_address .. ' ' .. prog_len .. ' ' .. get_pc() .. ' ' .. get_cycles() .. ' ' .. c)\n  f:close()\nend\n"))
+	model := r.Intn(2)
+	pend("trapglobals %d %x %d", model, loadAt, pad)
+	cfg := emuconfig.DefaultConfig()
+	cfg.MemSpec = "Linear64K"
+	if model == 1 {
+		cfg.Model = "65C02"
+	}
+	res := "ok"
+	var err error
+	crashed := protect(func() {
+		c, e := cfg.NewCpu()
+		if e != nil {
+			err = e
+			return
+		}
+		ta := uint(0x7F00)
+		if _, panicked := captureStdout(func() { _, _, err = commands.LoadAndRunBinary(c, &bin, &ta, &script, true) }); panicked {
+			panic("panic in LoadAndRunBinary")
+		}
+	})
+	if crashed {
+		res = "hostcrash"
+	} else if err != nil {
+		res = "error"
+	}
+	out, rerr := os.ReadFile(outFile)
+	o := strings.TrimSpace(string(out))
+	if rerr != nil || o == "" {
+		o = "-"
+	}
+	count("luaapi.trapglobals")
+	return fmt.Sprintf("trapglobals %d %x %d => %s | %s", model, loadAt, pad, res, o)
+}
+
 func luaapiStream(seed uint64, n int) {
 	r := rng.New(seed + 1212)
 	dir := tmpDir()
 	defer os.RemoveAll(dir)
 	for i := 0; i < n; i++ {
 		emit(apiCase(r, dir))
+		if i%10 == 3 {
+			emit(trapGlobalsCase(r, dir))
+		}
 	}
 }
